@@ -171,7 +171,19 @@ class C14(Check):
                         base = MemoryFS()
                     id0, id1 = eng.id0.hex(), rng.rbytes(16).hex()
                     base.makedirs(f'{id0}/{id1}')
-                    root = SDRoot(base, crypto=eng)
+                    if case['seed'] % 4 == 1:
+                        # the root makes its OWN engine from the key, and a second card with another console's key is opened next to
+                        # it (and stays open) before the first one is used: roots must not share key state however they got their engines
+                        root = SDRoot(base, sd_key=data)
+                        info['second card opened alongside (own engines)'] = 1
+                        key2 = Rng(case['seed'] + 21).rbytes(16)
+                        e2 = e.CryptoEngine()
+                        e2.setup_sd_key(key2)
+                        other_base = MemoryFS()
+                        other_base.makedirs(f'{e2.id0.hex()}/{rng.rbytes(16).hex()}')
+                        other_root = SDRoot(other_base, sd_key=key2)     # noqa: F841  (kept alive on purpose)
+                    else:
+                        root = SDRoot(base, crypto=eng)
                     sdfs = root.open_id1()
                     segs = case['segs']
                     dirp = '/'.join(segs[:-1])
